@@ -1071,6 +1071,11 @@ def c05_script(i, c, cfgs):
         pr = {k: val for k in ("eth", "ethereum/gas", "bnb", "bsc/gas", "hub", "usd")}
         acts += [{"k": "Price", "by": v, "ep": 1, "pr": pr} for v in ("v1", "v2", "v3")[:c["voters"]]]
         acts += [{"k": "End"}, {"k": "Blocks", "n": 4}, {"k": "Begin", "dt": 1}]
+    elif t == "OHold":
+        first = {"nolist": {"list": [], "nolist": True}, "empty": {"list": []}, "huge": {"list": [["e5", MAX256]]}, "ordinary": {"list": [["e5", 3]]}}[c["shape"]]
+        for k, v in enumerate(("v1", "v2", "v3")[:c["voters"]]):
+            acts.append(dict({"k": "Holders", "by": v, "ep": 1}, **(first if k == 0 else {"list": [["e5", 3]]})))
+        acts += [{"k": "End"}, {"k": "Blocks", "n": 4}, {"k": "Begin", "dt": 1}]
     acts += [{"k": "End"}, {"k": "Blocks", "n": 2}]
     return {"id": "tot-%d" % i, "family": "totality", "cfg": cfg, "acts": acts}
 
@@ -1118,7 +1123,7 @@ def check_c05(prop, tier, seed, replay_file=None):
         if tier == "quick":
             random.Random(seed).shuffle(idx)
             # the pair cases (sums over several huge values) are few and always run
-            idx = sorted(set(idx[:900]) | {i for i in range(len(cases)) if cases[i]["t"] in ("Pair", "RPair", "OPrice")})
+            idx = sorted(set(idx[:900]) | {i for i in range(len(cases)) if cases[i]["t"] in ("Pair", "RPair", "OPrice", "OHold")})
         scripts = [c05_script(i, cases[i], cfgs) for i in idx]
         scripts += load_static(["bulk*.ndjson", "c05*.ndjson", "attest*.ndjson", "econ*.ndjson", "fees*.ndjson"])
         # vote orders: conflicting claims, validators ahead / behind, powers changing (attest family), deposits and executions (econ)
